@@ -81,6 +81,13 @@ FAMILIES = {
         "vh_cfg": {},
         "tiers": {"quick": {"rand": 300, "rlen": 40, "chunks": 8}, "thorough": {"rand": 6000, "rlen": 60, "chunks": 14}},
     },
+    "gen": {
+        "fix_all": ["storage/FileProof", "rns/PrimaryName", "notification/Block", "jklmint/MintedBlock"], "trace_fix": None,
+        "mc": {"module": "Genesis", "cfg": {"quick": "Genesis-mc.cfg", "thorough": ["Genesis-mc.cfg"]}, "timeout": {"quick": 300, "thorough": 600}},
+        "trace_module": "GenTrace", "trace_cfg": "Gen-trace.cfg",
+        "vh_cfg": {},
+        "tiers": {"quick": {"rand": 48, "rlen": 2, "chunks": 8}, "thorough": {"rand": 1500, "rlen": 2, "chunks": 14}},
+    },
 }
 
 SP_ASSUME = COMMON_ASSUME + [
@@ -224,5 +231,18 @@ PROPS = {
                                          "name targets resolve through real RNS records installed with the keeper; block time advances in whole seconds",
                                          "two known findings (block entry listed in inbox; same-key create overwrites) are reported as KNOWN-FINDING, any other "
                                          "phantom or lost inbox entry is a violation"],
+    },
+    "C19": {
+        "family": "gen", "formulas": ["C19|*"], "nt": "C19",
+        "bug_variants": [("storage/FileProof", ["C19_RoundTrip"], "Genesis-mc.cfg"), ("jklmint/MintedBlock", ["C19_RoundTrip"], "Genesis-mc.cfg")],
+        "rule": "one evaluation = one history that populates all six custom modules through real messages and whole-app blocks (storage plans, files, "
+                "proofs, providers, collateral, attestation and report forms, gauges; rns names, listings, bids, primary and free names; filetree "
+                "entries and public keys; oracle feeds; notifications and block lists; mint history), followed by export, Validate, boot of a "
+                "fresh chain from the exported genesis, raw KV comparison of the six module stores per record kind, parameter comparison and "
+                "re-export; non-trivial = some record kind is populated; distinct = distinct per-kind record counts / outcomes",
+        "assumptions": ["the custom modules' ExportGenesis functions are called on the live context and the fresh chain is booted through InitChain with "
+                        "the exported JSON substituted into the default genesis",
+                        "record kinds are identified by store key prefix", "seven per-kind outcomes are known findings; any other lost/changed/extra "
+                        "kind, failed Validate, parameter difference or re-export difference is a violation"],
     },
 }
